@@ -68,14 +68,19 @@ def run_wide(cases, res):
 
 def wide2d_cases(rng, n, omodes=('wrap',)):
     """2-D arrays of Python integers into words of 64 bits and more, in three memory layouts (C order, a transposed view, Fortran
-    order): the code stored at a position is the residue (or the bound) of the input AT THAT POSITION"""
+    order) and as nested Python lists / tuples: the code stored at a position is the residue (or the bound) of the input AT THAT POSITION"""
     cases = []
     for _ in range(n):
         nw = rng.choice([64, 65, 72, 100, 128, 256]); s = rng.random() < 0.6; nf = rng.choice([0, 0, 1, nw // 2])
         lo, hi = S.fmt_bounds(s, nw); r_, c_ = rng.choice([(2, 3), (3, 2), (2, 2)])
         m = [rng.choice([lo, hi, lo - 1 - rng.randint(0, 9), hi + 1 + rng.randint(0, 9), rng.randint(-5, 5), rng.randint(lo, hi), rng.getrandbits(rng.choice([nw, 2 * nw, 300])) * rng.choice([1, -1]), 3 * (1 << nw) + rng.randint(-9, 9)])
              for _k in range(r_ * c_)]
-        cases.append({'s': s, 'nw': nw, 'nf': nf, 'shape2d': [r_, c_], 'm': m, 'layout': rng.choice(['C', 'T', 'T', 'F']), 'raw': nf == 0 or rng.random() < 0.7,
+        layout = rng.choice(['C', 'T', 'T', 'F', 'L', 'L', 'LT'])
+        if layout in ('L', 'LT') and rng.random() < 0.6:
+            # nested Python lists whose elements all fit in int64 except some in the one-bit band [2^63, 2^64) (np.array() of such a list is a float64 array)
+            m = [rng.choice([rng.randint(-9, 9), rng.randint(-(1 << 63), (1 << 63) - 1), (1 << 63) + rng.getrandbits(62) * 2 + 1, (1 << 64) - 1 - rng.randint(0, 9)]) for _k in range(r_ * c_)]
+            m[rng.randrange(len(m))] = (1 << 63) + rng.getrandbits(62) * 2 + 1
+        cases.append({'s': s, 'nw': nw, 'nf': nf, 'shape2d': [r_, c_], 'm': m, 'layout': layout, 'raw': nf == 0 or rng.random() < 0.7,
                       'o': rng.choice(list(omodes)), 'route': rng.choice(['ctor', 'set_val', 'call'])})
     return cases
 
@@ -87,6 +92,9 @@ def run_wide2d(cases, res, pid='C03'):
         try:
             if c['layout'] == 'T':      # the array handed over is a transposed VIEW of a (c_, r_) array holding the same matrix
                 base = np.array([m[i * c_ + j] for j in range(c_) for i in range(r_)] + [None], dtype=object)[:-1].reshape(c_, r_); a = base.T
+            elif c['layout'] in ('L', 'LT'):     # nested Python lists / tuples (no NumPy array on the caller's side)
+                a = [[m[i * c_ + j] for j in range(c_)] for i in range(r_)]
+                if c['layout'] == 'LT': a = tuple(tuple(row) for row in a)
             else:
                 a = np.array(m + [None], dtype=object)[:-1].reshape(r_, c_)
                 if c['layout'] == 'F': a = np.asfortranarray(a)
@@ -109,7 +117,7 @@ def run_wide2d(cases, res, pid='C03'):
         if got[1] != tuple(c['shape2d']):
             res.fail(c, pid + ': shape of the stored 2-D array differs from the input', expected=c['shape2d'], got=got[1]); continue
         if got[0] != want:
-            res.fail(c, pid + ': a 2-D array of Python integers handed over in a non-contiguous memory layout is not stored position by position (the code at [i, j] must be the residue / bound of the input at [i, j])', expected=want, got=got[0]); continue
+            res.fail(c, pid + ': a 2-D array of Python integers (a NumPy array in some memory layout, or nested lists) is not stored position by position (the code at [i, j] must be the residue / bound of the input at [i, j])', expected=want, got=got[0]); continue
         if got[2] != wf:
             res.fail(c, pid + ': overflow / underflow flags of a 2-D wide store are wrong', expected=wf, got=got[2])
 
